@@ -10,7 +10,7 @@
    tree satisfying the seed invariant; the finisher feeds back exactly the trees with pending
    nodes) are proved in Stage/PassProofs.v / PassClosed.v and restated below. *)
 From Coq Require Import Permutation.
-From ZenoV Require Import Tree.Item Tree.ItemSpec Stage.Pass Stage.PassSpec Stage.PassClosed Pipe.PipeLts Pipe.PipeProofs Pipe.PipeClosed.
+From ZenoV Require Import Tree.Item Tree.ItemSpec Stage.Pass Stage.PassSpec Stage.PassClosed Pipe.PipeLts Pipe.PipeProofs Pipe.PipeClosed Pipe.PipeTerm.
 Open Scope N_scope.
 
 (* Safety, in every reachable state: no stage panics; no seed is reported finished twice; a seed is
@@ -46,6 +46,16 @@ Theorem C01_all_finished_exactly_once_at_quiescence : forall w c rows ls s,
   /\ Permutation (map row_id rows) (map fst (p_finished s)).
 Proof. exact pipeline_quiescent_closed. Qed.
 Print Assumptions C01_all_finished_exactly_once_at_quiescence.
+
+(* Termination: with --domains-crawl off (the case for which C06 bounds the passes of a seed) every
+   execution is finite - at most 10 * (4 * (max-redirect + 1)) + 10 steps per queue row - whatever
+   the interleaving and whatever the sites answer.  With deadlock freedom and the theorem above:
+   every maximal execution ends with every row reported finished exactly once (never dropped). *)
+Theorem C01_every_execution_is_finite : forall w c rows ls s,
+  NoDup (map row_id rows) -> domains_crawl c = false -> run (init w c rows) ls = Some s ->
+  (length ls <= length rows * (10 * (4 * (N.to_nat (max_redirect c) + 1)) + 10))%nat.
+Proof. exact pipeline_execution_bound. Qed.
+Print Assumptions C01_every_execution_is_finite.
 
 (* ---- one seed's whole life, for every list of per-pass oracles (= every site behaviour, every
    seen-store answer, every filter outcome) ---- *)
